@@ -43,8 +43,8 @@ RULE = ('every labelled digraph on n<=3 nodes (n<=4 thorough, a random slice of 
         'consecutive layers completely connected, one-way or both ways, unit or per-layer lengths 1..3, labels permuted, n = 125..142, 3^41 / 2^63 and more shortest routes '
         'between the ends (beyond int64) - one per quick run; thorough tier = escalated pass on a changed tree (run FIRST there): eleven of them + braids beyond 2^31 / 2^32 / 2^53 '
         '(3 x 20..33, 2 x 32..52, 4 x 16..26) + grids 8x8..10x10; all four routines, the node-vector and sum identities, the weighted routines on the 0/1 pattern; float path counts are '
-        'compared at 1e-9 at any magnitude (additions of positive terms only). K50 + chain of 183 (connected, n = 233) through betweenness_bin: walk counts beyond binary64, '
-        'the routine does not return (open finding betweenness_bin[walk-count-overflow]:returns; quick: overflow flag trapped, thorough: 15 s limit).')
+        'compared at 1e-9 at any magnitude (additions of positive terms only). K50 + chain of 183 (connected, n = 233, labels permuted) through betweenness_bin and edge_betweenness_bin in every run: the number of ALL walks of length d leaves '
+        'binary64 there ((k-1)^d), the routine extends minimum-length walks only (`NPd = np.dot(NSPd, G)`) and must return the exact-integer oracle\'s values within 15 s.')
 ASSUMES = ['connection lengths are small positive integers or integers < 2^33 times 2^-20 / 2^-30 (dyadic): every sum / '
            'comparison of lengths and every path count the model treats as exact is exact in binary64; quotients are '
            'compared with tolerance 1e-9',
@@ -54,8 +54,8 @@ ASSUMES = ['connection lengths are small positive integers or integers < 2^33 ti
            'the rounded sums (open finding, keys *[rounded-lengths]:tie), recognised by an independent oracle that replays those sums',
            'path counts: below 2^53 in the main stream and wherever a model line is run (graphs whose counts exceed that are not compared there); the stress families go to '
            '2^63 and beyond against the exact-integer oracle at tolerance 1e-9 - the float routines only add and multiply positive path counts, so their relative error stays ~1e-14',
-           'betweenness_bin: the number of ALL walks of length d (NPd) is an exact integer in the model and binary64 in the code - beyond 1.8e308 (dense block + tail of ~180+ nodes) '
-           'the code does not terminate (OPEN finding betweenness_bin[walk-count-overflow]:returns, proposed_fixes/betweenness_bin_overflow.diff)']
+           'betweenness_bin: NPd = NSPd . G (minimum-length walks extended by one connection) is an exact integer in the model and binary64 in the code; its entries are bounded by '
+           '(maximum degree) x (largest number of minimum-length walks), i.e. they stay in range wherever the path counts do (clique + long chain: judged in every run)']
 TRUSTED = ['bc_correct for the four routines (model output = BC_spec / EBC_spec) IS a theorem about the Gallina models '
            '(C08_bc_correct); that the models follow the Python code statement by statement is established by the '
            'differential correspondence (sampling), including the per-source search state (Q, q, NP, D, P) of the '
@@ -1112,16 +1112,11 @@ def blas_threads(k=1):
             st(old)
 
 
-BIN_OVERFLOW_KEY = 'betweenness_bin[walk-count-overflow]:returns'
-
-
-def bin_walk_overflow(ctx, R, k, c):
-    """K_k with a chain of c nodes (connected, undirected, (k-1)^c > 1.8e308): betweenness_bin counts ALL walks of length d in
-    NPd although it only uses those that are shortest paths; once an entry is inf, `NPd * (L == 0)` is nan and
-    `while np.any(NSPd)` never ends.  Real thorough tier: the call under a wall-clock limit.  Otherwise (quick tier and its
-    escalated pass, where a hang would cost the limit on every run): the call with numpy's overflow flag trapped - the
-    FloatingPointError raised inside the routine marks the round in which the counts leave binary64.  If the routine returns
-    (as it does once repaired) its value and edge_betweenness_bin's are judged by the exact-integer oracle."""
+def bin_clique_chain(ctx, R, k, c):
+    """K_k with a chain of c nodes (connected, undirected, (k-1)^c > 1.8e308): the number of ALL walks of length d between
+    two nodes leaves binary64 long before the loop reaches the end of the chain; betweenness_bin extends minimum-length
+    walks only (`NPd = np.dot(NSPd, G)`), whose counts stay small here.  An ordinary oracle clause: the routine has to
+    return within the limit, and its value and edge_betweenness_bin's are judged by the exact-integer oracle."""
     bct = R.bct
     r = stress_rng(ctx, 2)
     n = k + c
@@ -1138,22 +1133,13 @@ def bin_walk_overflow(ctx, R, k, c):
             'construction': 'K_k on nodes 0..k-1, chain 0 - k - k+1 - ... - k+c-1 (both directions), A = A[ix_(perm, perm)]'}
     ctx.case(case, nontrivial=True)
     ctx.count('stress:clique+chain(binary64 range)'); ctx.count('stress:n=%d' % n)
-    real = ctx.tier == 'thorough'
     bc = None
     with no_variants(), blas_threads(1):
         try:
-            if real:
-                with np.errstate(all='ignore'):
-                    bc = call(bct.betweenness_bin, A.astype(float), _t=15.0)
-            else:
-                with np.errstate(over='raise', invalid='ignore'):
-                    bc = call(bct.betweenness_bin, A.astype(float), _t=4.0)
+            with np.errstate(all='ignore'):
+                bc = call(bct.betweenness_bin, A.astype(float), _t=15.0)
         except Timeout:
-            ctx.fail(BIN_OVERFLOW_KEY, 'does not return within the limit on a connected undirected 0/1 network of %d nodes' % n, case)
-            return
-        except FloatingPointError as e:
-            ctx.fail(BIN_OVERFLOW_KEY, 'the walk counts NPd overflow binary64 (%s trapped inside the routine); untrapped the next product is nan and '
-                     '`while np.any(NSPd)` never ends' % e, case)
+            ctx.fail('betweenness_bin:returns', 'does not return within 15 s on a connected undirected 0/1 network of %d nodes' % n, case)
             return
         except Exception as e:
             ctx.fail('betweenness_bin:raises', 'raised %r' % (e,), case)
@@ -1191,7 +1177,7 @@ def stress_families(ctx, R):
     # brandes_exact against the pair-counting oracle on a small member of each family
     L, p = g_braid(r, int(r.choice([2, 3])), int(r.randint(4, 8)), bool(r.rand() < 0.5), [int(x) for x in r.randint(1, 4, size=9)])
     R.stress(L, 'braid', {'family': 'braid(selftest)', 'G': L.tolist()}, selftest=True)
-    bin_walk_overflow(ctx, R, 50, 183)
+    bin_clique_chain(ctx, R, 50, 183)
     if not ctx.thorough:
         w, l = [(3, int(r.randint(41, 45))), (2, int(r.randint(63, 67)))][int(r.randint(2))]
         braid(w, l, bool(r.rand() < 0.5), False)
